@@ -78,8 +78,9 @@ check("C07", "model_checking",
       "TLC explores ALL interleavings for 3x2, 3x3 (thorough 4x2, 4x3, 5x2) designs x workers and 2x2 (3x2) with transient and fatal faults: "
       "one call per design, final record = serial record, every evaluated design has its final row, lock exclusive; liveness under weak "
       "fairness. JobGen emits every distinct schedule (order of objective returns and store synchronisations); each is forced onto the real "
-      "joblib threads by gates in the user objective and around data_store.sync_individual (a quarter with a real SQLite file, read back "
-      "through an independent connection); free-running stress runs with 2-8 workers, SQLite and transient failures are recorded too. "
+      "joblib threads by gates at three public hooks per design (the constraints hook at Job.evaluate entry, the user objective, "
+      "data_store.sync_individual; a quarter with a real SQLite file read back through an independent connection); free-running stress "
+      "runs with 2-8 workers, SQLite, transient failures and injected lock contention (database is locked) are recorded too. "
       "JobTrace validates every event and the end state against the per-design projection of the model.",
       "trusted: TLC; the gate controller (releases only when every busy worker is parked); events totally ordered under one harness lock; "
       "interleavings finer than objective-call / store-sync granularity are only sampled by the stress runs",
@@ -103,7 +104,8 @@ check("C16", "model_checking",
       "sum f = (1+g)/2, sum f^2 = (1+g)^2, non-negativity and the corner structure. Sampled lattice points for m = 2..4 with k = 10 "
       "(DTLZ1 also k = 1, 2, 5), Python floats and numpy scalars, are evaluated by the real classes; BenchTrace compares every objective "
       "with the model's exact rational (reduced-fraction equality, no tolerance beyond 2e-11 projection), ZDT1 exactly where the root is "
-      "rational and by a square-root-free fixed-point identity elsewhere. Right level for an index-structure property: a wrong variable "
+      "rational and by a square-root-free fixed-point identity elsewhere; a second part evaluates lattice points from four threads "
+      "on ONE problem object (re-entrancy, as artap's threaded evaluation does). Right level for an index-structure property: a wrong variable "
       "index, slice or constant changes an exact rational somewhere on the lattice.",
       "trusted: TLC; nearest-rational projection (denominator <= 80000, 2e-11); libm accuracy at the lattice angles; points between lattice "
       "points are not examined", "TLC-checked exact lattice model + TLC validation of real evaluations on the lattice", "DESIGN.md 5/C16")
@@ -126,7 +128,8 @@ check("C19", "model_checking",
       "order, retrained exactly at every train_step-th true evaluation, prediction only when trained (action property), monotonicity. "
       "SurrogateGen emits EVERY sequence of length 6 (8); each is replayed through a counting subclass of SurrogateModelPredict, the real "
       "SurrogateModelScikit (1-NN regressor) and SurrogateModelEval with a scripted Problem.predict hook; SurrogateTrace replays the same "
-      "Request action and compares every observable after every request; random sequences up to 60 requests / train steps up to 10.",
+      "Request action and compares every observable after every request; random sequences up to 60 requests / train steps up to 10 with repeated design vectors. Side-car: "
+      "Apalache establishes the counter laws as an inductive invariant (spec/apalache/SurrogateInd.tla), i.e. for any number of requests.",
       "trusted: TLC; scripted predict hook; train() counted by wrapping the public method; SurrogateModelSMT not exercised",
       "TLC exhaustive model + every TLC-emitted request sequence replayed + TLC trace validation with the model's own action", "DESIGN.md 5/C19")
 
@@ -196,7 +199,8 @@ check("C09", "model_checking",
       "SMPSO runs (N 2..12, G 1..6, 1-3 objectives, 1-4 parameters, with and without transient failures) are recorded through the "
       "objective call log and Problem.populations(); RunTrace checks budget, tags, sizes, distinctness, the full NSGA-II step relation "
       "(survivors from parents and offspring, rank first, by front peeling), elitism and monotonicity; pop_acceptance is executed on "
-      "sampled populations of the model's vectors with every random.choice outcome forced and judged by PopAcceptOK.",
+      "sampled populations of the model's vectors with every random.choice outcome forced and judged by PopAcceptOK, and every "
+      "acceptance step of the real eps-MOEA runs is observed and judged the same way.",
       "trusted: TLC; design identity = exact vector; hash-based deterministic objective; rank abstraction over the whole run",
       "TLC exhaustive generation model + TLC trace validation of whole real runs + forced-choice acceptance table", "DESIGN.md 5/C09")
 
